@@ -103,6 +103,22 @@ def conforms(facts, schema, v):
     return S.or_(*alts)
 
 
+def item_conforms(schema, v):
+    """the string v is admitted as an element of a list value of the slot"""
+    alts = []
+    for l in leaves(schema):
+        it = l.get("items")
+        for i in (it if isinstance(it, list) else [it]):
+            if not isinstance(i, dict):
+                continue
+            for ll in leaves(i):
+                if ll.get("type") == "string":
+                    alts.append(wrapped(v, "[", "]") if ll.get("pattern") == BIND_PAT else True)
+    if not alts:
+        return True
+    return S.or_(*alts)
+
+
 def string_text_ok(facts, attr, v, q, text):
     """acceptable printed forms of the string value v"""
     quoted = S.concat(q, v, q)
